@@ -232,5 +232,12 @@ func genSession(r *rand.Rand, id string) *Case {
 	if r.Intn(12) == 0 {
 		c.WF = r.Intn(12)
 	}
+	if !c.RF && r.Intn(10) == 0 {
+		// the client hangs up (half-close) after its last byte, possibly in the middle of a message
+		c.EOF = true
+		if r.Intn(2) == 0 {
+			c.In = in[:r.Intn(len(in)+1)]
+		}
+	}
 	return c
 }
